@@ -64,7 +64,7 @@ def clamp(v): return max(I64MIN, min(I64MAX, v))
 def wf(z):
     N = z["N"]; po = pre_off(z)
     if not (z["unix"][0] < 0 <= z["unix"][N - 1]): return False
-    if any(abs(u) > (1 << 61) for u in z["unix"]): return False
+    if any(abs(u) > (1 << 59) for u in z["unix"]): return False
     for i in range(1, N):
         if z["unix"][i] - z["unix"][i - 1] <= abs(po[i] - po[i - 1]) + abs(po[i + 1] - po[i]): return False
     return True
@@ -127,4 +127,32 @@ def check_case(z, kind):
             return None
     finally:
         nat.close()
+    return None
+
+def check_transoffset(model, form):
+    """native TransOffset vs the POSIX rule evaluated by walking the calendar of a concrete year with those properties"""
+    g = lambda k, d=0: model.get(k, d)
+    leap = 1 if g("leap", False) else 0; j1 = g("jan1_weekday"); t = g("time")
+    fmt = {"J": 0, "N": 1, "M": 2}[form]
+    a, b, c = (g("n", 1 if form == "J" else 0), 0, 0) if form != "M" else (g("m", 1), g("w", 1), g("d"))
+    f = lib().tzr_transoffset; f.restype = ctypes.c_longlong
+    got = f(leap, j1, fmt, a, b, c, ctypes.c_longlong(t))
+    dim = [31, 29 if leap else 28, 31, 30, 31, 30, 31, 31, 30, 31, 30, 31]
+    if form == "N": days = a
+    elif form == "J":
+        # walk the year skipping Feb 29
+        days = -1; cnt = 0
+        for m in range(12):
+            for d in range(1, dim[m] + 1):
+                days += 1
+                if m == 1 and d == 29: continue
+                cnt += 1
+                if cnt == a: break
+            if cnt == a: break
+    else:
+        start = sum(dim[:a - 1]); hits = [start + d for d in range(dim[a - 1]) if (j1 + start + d) % 7 == c]
+        days = hits[-1] if b == 5 else hits[b - 1]
+    want = days * 86400 + t
+    if got != want:
+        return "TransOffset(leap=%d, jan1_weekday=%d, %s%s, time=%d) == %d, expected %d (day %d of the year)" % (leap, j1, form, (a, b, c) if form == "M" else a, t, got, want, days)
     return None
